@@ -333,6 +333,15 @@ func (e *Engine) defineSpecFunc(env *Env, sf *SpecFunc) (string, []types.Type, t
 	sym := "spec!" + sanitize(sf.Name)
 	d := &definedSpecFunc{sym: sym, ptypes: ptypes, rt: rt}
 	e.specFuncsDefined[key] = d
+	if sf.Body == nil {
+		// uninterpreted
+		var sorts []string
+		for _, t := range ptypes {
+			sorts = append(sorts, sortOf(t))
+		}
+		reg.decl(fmt.Sprintf("(declare-fun %s (%s) %s)", sym, strings.Join(sorts, " "), sortOf(rt)))
+		return sym, ptypes, rt
+	}
 	// recursion: declare first if the body mentions the function itself
 	rec := strings.Contains(sf.Body.String(), sf.Name+"(")
 	if rec {
